@@ -1149,7 +1149,7 @@ def expand(unit, db=None, outdir=None, variant=None):
                 key, specfile, srcpath = m.group(1), m.group(2), m.group(3)
                 text = open(os.path.join(VERIF, specfile)).read()
                 labels = re.findall(r'//\s*\[([^\]]+)\]', text)
-                info['functions'].append({'fn': key, 'source': srcpath, 'contract': specfile, 'verified_here': True,
+                info['functions'].append({'fn': key, 'source': srcpath, 'contract': specfile, 'verified_here': True, 'prooffn': True,
                                           'body_sha256': hashlib.sha256(text.encode()).hexdigest()[:16], 'rewrites': [], 'degraded': [],
                                           'loops': 0, 'labels': labels, 'clauses': len(labels)})
                 lines.append('//@@BEGIN %s\n%s\n//@@END %s' % (key, text.rstrip('\n'), key))
